@@ -133,7 +133,11 @@ def canonical_mapping(j, ref):
         if len(same_name) == 1:
             pick = same_name[0]
         elif not same_name and len(same_shape) == 1:
-            pick = same_shape[0]
+            # one new type of this shape — and it must be the counterpart of this missing type only: a new type that could
+            # equally stand for several missing ones (three sibling structs merged into one generic struct) stands for none
+            rivals = [q for q in missing_adts if q != mp and _adt_sig(ref["adts"][q]) == _adt_sig(ra) and not [p for p in unknown_adts if p.split("::")[-1] == q.split("::")[-1]]]
+            if not rivals:
+                pick = same_shape[0]
         if pick:
             repl.append((pick, mp))
             unknown_adts.remove(pick)
